@@ -374,6 +374,33 @@ class Sub(X):
         return self.idx.stringable() and parseable(self.arr)
 
 
+class Attr(X):
+    """attribute lookup on a numeric variable: x.real / x.imag (the attribute name is no variable)."""
+    __slots__ = ("name", "attr")
+
+    def __init__(self, name, attr):
+        self.name, self.attr = name, attr
+
+    def s(self, nm):
+        return "%s.%s" % (_q(nm(self.name)), self.attr)
+
+    def pym(self, nm):
+        import pymbolic.primitives as p
+        return p.Lookup(p.Variable(nm(self.name)), self.attr)
+
+    def ev(self, R, flat):
+        v = R.read(self.name)
+        if isinstance(v, (bool, np.bool_, np.ndarray)) or not isinstance(v, (int, float, np.integer, np.floating)):
+            raise IllDefined("attribute-of-non-number")
+        return v.real if self.attr == "real" else v.imag
+
+    def vars(self, acc):
+        acc.append(self.name)
+
+    def stringable(self):
+        return parseable(self.name)
+
+
 class Call(X):
     __slots__ = ("fn", "args", "kwargs")
 
